@@ -153,6 +153,10 @@ class ConcreteEngine:
     def div_is_rounding(mode, m, x, y):
         return int(m) == round_q(mode, Fraction(int(x), int(y)))
 
+    @staticmethod
+    def value_of(k):
+        return int(k)
+
     def stub(self, name):
         pass
 
